@@ -1082,8 +1082,12 @@ class Evaluator:
                     return Comp(c.mask, lambda j: f(v, fc(j)), kind or c.kind)
             self.safety("shape", False, lineno)
             raise Unsupported("compressed array combined with full array (line %d)" % lineno)
-        self.same_len(a.n, b.n, lineno)
         fa, fb = a.f, b.f
+        if not is_z3(a.n) and not isinstance(a.n, Count) and a.n == 1 and not same_term(a.n, b.n):
+            return Arr(b.n, lambda j: f(fa(0), fb(j)), kind or _rk(a, b))     # numpy broadcasting
+        if not is_z3(b.n) and not isinstance(b.n, Count) and b.n == 1 and not same_term(a.n, b.n):
+            return Arr(a.n, lambda j: f(fa(j), fb(0)), kind or _rk(a, b))
+        self.same_len(a.n, b.n, lineno)
         return Arr(a.n, lambda j: f(fa(j), fb(j)), kind or _rk(a, b))
 
     def same_len(self, n1, n2, lineno):
@@ -1431,11 +1435,16 @@ class Evaluator:
                 return obj
             if attr == "T":
                 raise Unsupported("transpose")
-            return BoundMethod(obj, attr)
+            if attr in ("astype", "copy", "sum", "any", "all", "round", "max", "min", "tolist", "item",
+                        "mean", "cumsum", "repeat", "reshape", "flatten", "nonzero", "fill", "__len__"):
+                return BoundMethod(obj, attr)
+            raise _Raise(ExcVal("AttributeError", (attr,)))
         if isinstance(obj, (dict, list, tuple, str, set)):
             return BoundMethod(obj, attr)
         if is_scalar(obj):
-            return BoundMethod(obj, attr)
+            if attr in ("round", "astype", "item"):
+                return BoundMethod(obj, attr)
+            raise _Raise(ExcVal("AttributeError", (attr,)))
         if isinstance(obj, S.ClassRef):
             return self.class_attr(obj, attr)
         if isinstance(obj, ExcVal):
